@@ -211,23 +211,27 @@ func assembled(v variant, nBeforeMax, nw int) {
 	}
 }
 
+// moreWrites: the thorough tier is the union of two explorations - the quick number of writes under
+// the larger delay bound (registry: 1), and one more write under the quick delay bound (0).
+func moreWrites() int {
+	if verif.Tier() == "thorough" && verif.Choose("moreWrites", 2) == 1 {
+		verif.SetPreemptions(0)
+		return 1
+	}
+	return 0
+}
+
 // H_Assembled: the real Runtime with a plain controller (weak input by kind or by ID) and a queue
 // controller on the in-memory state; after any history of writes issued before or after start, with
 // or without settling in between, the last state each controller read is the current state.
 func H_Assembled() {
-	nw := 2
-	if verif.Tier() == "thorough" {
-		nw = 3
-	}
+	nw := 2 + moreWrites()
 	assembled(variant{byID: verif.Choose("plainInputByID", 2) == 1}, 1, nw)
 }
 
 // H_AssembledKinds: the same with a cached input kind, a destroy-ready input and a mapped input.
 func H_AssembledKinds() {
-	nw := 1
-	if verif.Tier() == "thorough" {
-		nw = 2
-	}
+	nw := 1 + moreWrites()
 	v := variant{}
 	switch verif.Choose("variant", 4) {
 	case 0:
